@@ -117,6 +117,35 @@ fn res_name(r: &Result<(), RegError>) -> String {
     }
 }
 
+type SignKey = (usize, String, Vec<u8>, Vec<H>);
+type SignCache = std::sync::Mutex<Vec<(u64, BTreeMap<SignKey, RegisterOp>)>>;
+static SIGN_CACHE: std::sync::OnceLock<SignCache> = std::sync::OnceLock::new();
+
+/// Memo of `RegisterOp::new` (deterministic BLS signing) for the most recent key seeds. Never iterated, so it
+/// cannot influence a run; a hit returns exactly what the real call returned for the same inputs.
+fn sign_cache_get(seed: u64, key: &SignKey) -> Option<RegisterOp> {
+    let c = SIGN_CACHE.get_or_init(|| std::sync::Mutex::new(Vec::new()));
+    let g = c.lock().ok()?;
+    g.iter().find(|(s, _)| *s == seed).and_then(|(_, m)| m.get(key).cloned())
+}
+
+fn sign_cache_put(seed: u64, key: SignKey, op: RegisterOp) {
+    let c = SIGN_CACHE.get_or_init(|| std::sync::Mutex::new(Vec::new()));
+    let Ok(mut g) = c.lock() else { return };
+    if let Some((_, m)) = g.iter_mut().find(|(s, _)| *s == seed) {
+        if m.len() < 8192 {
+            m.insert(key, op);
+        }
+        return;
+    }
+    if g.len() >= 20 {
+        g.remove(0);
+    }
+    let mut m = BTreeMap::new();
+    m.insert(key, op);
+    g.push((seed, m));
+}
+
 /// `target` with the signature field of `donor` (both travel as serde data on the wire, so an adversary can
 /// assemble this; the fields are not reachable through the public API).
 fn with_signature_of(target: &RegisterOp, donor: &RegisterOp) -> RegisterOp {
@@ -217,11 +246,17 @@ impl<'a> World<'a> {
         }
     }
 
-    fn limit_signature(&self, crossed_by: Option<&'static str>) -> Vec<(&'static str, String)> {
-        let shape = match crossed_by {
-            Some("add_op") => "entry_limit_reached_by_add_op",
-            Some("merge") => "entry_limit_crossed_by_merge",
-            _ => "entry_limit_crossed",
+    /// Signature of a TooManyEntries rejection of a reachable register: `len` ops, reached by add_op alone
+    /// (`history` None) or through at least one register merge that added ops (`history` Some("merge")).
+    /// Only more than LIMIT ops produced by a merge is the recorded finding; a register within the limit must
+    /// verify however it was reached, and add_op alone can never legitimately exceed the limit.
+    fn limit_signature(&self, len: usize, history: Option<&'static str>) -> Vec<(&'static str, String)> {
+        let merged = history == Some("merge");
+        let shape = match (len > LIMIT, merged) {
+            (true, true) => "entry_limit_crossed_by_merge",
+            (true, false) => "entry_limit_exceeded_by_add_op_alone",
+            (false, false) => "entry_limit_reached_by_add_op",
+            (false, true) => "register_within_limit_rejected_after_merge",
         };
         vec![("cause", "entry_count_limit".to_string()), ("shape", shape.to_string())]
     }
@@ -335,6 +370,21 @@ impl<'a> World<'a> {
                 let (_h, _a, decoy_node) = other.write(decoy, &children).expect("write");
                 let donor = RegisterOp::new(op_addr, decoy_node, &self.keys[source_actor]);
                 (with_signature_of(&target, &donor), false)
+            }
+            _ if self.limit_mode => {
+                // a thousand BLS signatures per execution: memoise the pure function RegisterOp::new per key seed,
+                // so that re-executions of (variants of) the same plan during minimisation are cheap
+                let key = (source_actor, op_addr.to_hex(), bytes.clone(), children.iter().map(|h| h.0).collect::<Vec<H>>());
+                let hit = sign_cache_get(self.plan.key_seed, &key);
+                let op = match hit {
+                    Some(op) => op,
+                    None => {
+                        let op = RegisterOp::new(op_addr, node, &self.keys[source_actor]);
+                        sign_cache_put(self.plan.key_seed, key, op.clone());
+                        op
+                    }
+                };
+                (op, true)
             }
             _ => (RegisterOp::new(op_addr, node, &self.keys[source_actor]), true),
         };
@@ -473,12 +523,17 @@ impl<'a> World<'a> {
                 self.violate("invalid_op_admitted", &[("cause", cause_of(defect).into()), ("shape", defect.into()), ("entry_point", entry_point.into())], d);
             }
         }
-        if before.len() < LIMIT && actual.len() >= LIMIT {
-            self.replicas[r].crossed_by = Some(grow_kind);
-            self.rep.probe(if grow_kind == "add_op" { "limit_reached_by_add_op" } else { "limit_crossed_by_merge" });
+        if grow_kind == "merge" && actual.len() > before.len() {
+            self.replicas[r].crossed_by = Some("merge");
         }
-        if actual.len() == LIMIT - 1 {
-            self.rep.probe("held_exactly_1023");
+        if before.len() < LIMIT && actual.len() == LIMIT {
+            self.rep.probe(if grow_kind == "add_op" { "limit_reached_by_add_op" } else { "limit_reached_by_merge" });
+        }
+        if before.len() <= LIMIT && actual.len() > LIMIT {
+            self.rep.probe(if grow_kind == "add_op" { "limit_exceeded_by_add_op" } else { "limit_crossed_by_merge" });
+        }
+        if actual.len() == LIMIT {
+            self.rep.probe("held_exactly_1024");
         }
         let changed = actual != *before;
         self.replicas[r].model = actual;
@@ -490,6 +545,11 @@ impl<'a> World<'a> {
         }
     }
 
+    fn admitted_beyond_limit(&mut self, r: usize, before_len: usize, entry_point: &'static str) {
+        let d = format!("r{r} already held {before_len} ops (the limit is {LIMIT}) and {entry_point} admitted one more");
+        self.violate("op_admitted_beyond_entry_limit", &[("cause", "entry_count_limit".into()), ("shape", "add_op_admits_beyond_limit".into()), ("entry_point", entry_point.into())], d);
+    }
+
     /// A state a replica reached must be accepted by its peers.
     fn verify_reachable(&mut self, r: usize, whence: &str) {
         let Some(signed) = self.replicas[r].signed.as_ref() else { return };
@@ -498,10 +558,11 @@ impl<'a> World<'a> {
         self.rep.log(format!("  verify(r{r} state, {len} ops) at peers [{whence}] => {}", res_name(&res)));
         if let Err(e) = res {
             let sig = match e {
-                RegError::TooManyEntries(_) => self.limit_signature(self.replicas[r].crossed_by),
+                RegError::TooManyEntries(_) => self.limit_signature(len, self.replicas[r].crossed_by),
                 _ => vec![("shape", format!("other_{}", err_name(&e)))],
             };
-            let d = format!("state of r{r} ({len} ops, reached through accepted operations/merges) is rejected by verify(): {}", err_name(&e));
+            let how = if self.replicas[r].crossed_by == Some("merge") { "reached through accepted operations and at least one register merge" } else { "reached by add_op alone" };
+            let d = format!("state of r{r} ({len} ops, {how}) is rejected by verify(): {}", err_name(&e));
             self.violate("reachable_state_rejected_by_peer", &sig, d);
         }
     }
@@ -544,13 +605,19 @@ impl<'a> World<'a> {
         }
         self.rep.log(line);
         let valid = self.valid(k);
-        if !accepted && valid && before_len < LIMIT - 1 {
+        if !accepted && valid && before_len < LIMIT {
             let e = res.as_ref().err().map(err_name).unwrap_or("?");
             let d = format!("r{r} ({before_len} ops) rejected {} with {e}", self.describe_op(k));
             self.violate("valid_op_rejected", &[("shape", e.to_string()), ("entry_point", "add_op".into())], d);
         }
-        if valid && before_len >= LIMIT - 1 {
-            self.rep.probe(if accepted { "op_admitted_at_limit" } else { "op_refused_at_limit" });
+        if accepted && before_len >= LIMIT && !before.contains(&canon) {
+            self.admitted_beyond_limit(r, before_len, "add_op");
+        }
+        if valid && before_len == LIMIT - 1 && accepted {
+            self.rep.probe("last_entry_admitted");
+        }
+        if valid && before_len >= LIMIT && !accepted {
+            self.rep.probe("op_refused_at_limit");
         }
         let incoming: BTreeSet<usize> = [canon].into_iter().collect();
         self.post_check(r, &before, &incoming, accepted, "add_op", "add_op");
@@ -614,10 +681,11 @@ impl<'a> World<'a> {
             Origin::Reachable => {
                 if let Err(e) = &res {
                     let sig = match e {
-                        RegError::TooManyEntries(_) => self.limit_signature(crossed_by),
+                        RegError::TooManyEntries(_) => self.limit_signature(n_in, crossed_by),
                         _ => vec![("shape", format!("other_{}", err_name(e)))],
                     };
-                    let d = format!("{label} ({n_in} ops), a state reached through accepted operations/merges, is rejected by r{to} via {entry_point}: {}", err_name(e));
+                    let how = if crossed_by == Some("merge") { "reached through accepted operations and at least one register merge" } else { "reached by add_op alone" };
+                    let d = format!("{label} ({n_in} ops), a state {how}, is rejected by r{to} via {entry_point}: {}", err_name(e));
                     self.violate("reachable_state_rejected_by_peer", &sig, d);
                 }
             }
@@ -628,7 +696,7 @@ impl<'a> World<'a> {
                     self.violate("foreign_base_register_accepted", &[("shape", what.into()), ("entry_point", entry_point.into())], d);
                     self.stop = true; // the replica is no longer a replica of this register
                 }
-                if !accepted && base_ok && all_valid && n_in < LIMIT - 1 && before.len() + n_in < LIMIT - 1 {
+                if !accepted && base_ok && all_valid && n_in <= LIMIT {
                     let e = res.as_ref().err().map(err_name).unwrap_or("?");
                     let d = format!("r{to} rejected {label}, which holds only valid ops on the genuine base register, via {entry_point}: {e}");
                     self.violate("valid_state_rejected", &[("shape", e.to_string()), ("entry_point", entry_point.into())], d);
@@ -681,7 +749,7 @@ impl<'a> World<'a> {
                         let valid = self.valid(k);
                         if let Err(e) = &res {
                             self.rep.probe(&format!("op_rej_{}", err_name(e)));
-                            if valid && before_len < LIMIT - 1 {
+                            if valid && before_len < LIMIT {
                                 let d = format!("client copy ({before_len} ops) rejected {} with {}", self.describe_op(k), err_name(e));
                                 self.violate("valid_op_rejected", &[("shape", err_name(e).to_string()), ("entry_point", "client_add_op".into())], d);
                             }
@@ -693,7 +761,10 @@ impl<'a> World<'a> {
                                 self.violate("invalid_op_admitted", &[("cause", cause_of(defect).into()), ("shape", defect.into()), ("entry_point", "client_add_op".into())], d);
                             }
                         }
-                        let crossed = if before_len < LIMIT && copy.ops().len() >= LIMIT { Some("add_op") } else { self.replicas[at].crossed_by };
+                        if res.is_ok() && before_len >= LIMIT && copy.ops().len() > before_len {
+                            self.admitted_beyond_limit(at, before_len, "client_add_op");
+                        }
+                        let crossed = self.replicas[at].crossed_by;
                         for to in 0..n {
                             if (mask >> to) & 1 == 1 {
                                 self.pending.push(Msg { from: at, to, payload: Payload::State { snap: copy.clone(), via, crossed_by: crossed } });
@@ -873,6 +944,7 @@ impl<'a> World<'a> {
         let before = self.replicas[r].model.clone();
         let (mut ok, mut refused) = (0usize, 0usize);
         let mut first_refusal: Option<(usize, &'static str, usize)> = None;
+        let mut beyond: Option<usize> = None;
         for k in list {
             let op = self.pool[k].op.clone();
             let canon = self.pool[k].canon;
@@ -883,13 +955,13 @@ impl<'a> World<'a> {
                 Ok(()) => {
                     ok += 1;
                     let _ = self.replicas[r].crdt.apply_op(op);
-                    self.replicas[r].model.insert(canon);
                     if before_len == LIMIT - 1 {
-                        self.replicas[r].crossed_by = Some("add_op");
+                        self.rep.probe("last_entry_admitted");
                     }
-                    if before_len >= LIMIT - 1 {
-                        self.rep.probe("op_admitted_at_limit");
+                    if before_len >= LIMIT && !self.replicas[r].model.contains(&canon) {
+                        beyond = Some(before_len);
                     }
+                    self.replicas[r].model.insert(canon);
                 }
                 Err(e) => {
                     refused += 1;
@@ -897,7 +969,7 @@ impl<'a> World<'a> {
                     if first_refusal.is_none() {
                         first_refusal = Some((k, err_name(&e), before_len));
                     }
-                    if valid && before_len < LIMIT - 1 {
+                    if valid && before_len < LIMIT {
                         let d = format!("r{r} ({before_len} ops) rejected {} with {}", self.describe_op(k), err_name(&e));
                         self.violate("valid_op_rejected", &[("shape", err_name(&e).to_string()), ("entry_point", "add_op".into())], d);
                     } else if valid {
@@ -905,6 +977,9 @@ impl<'a> World<'a> {
                     }
                 }
             }
+        }
+        if let Some(b) = beyond {
+            self.admitted_beyond_limit(r, b, "add_op");
         }
         let len = self.replicas[r].signed.as_ref().map(|s| s.ops().len()).unwrap_or(0);
         self.rep.log(format!("  {label} -> r{r}: add_op Ok x{ok}, refused x{refused} (first refusal {first_refusal:?}); r{r} holds {len}"));
@@ -1066,7 +1141,7 @@ impl<'a> World<'a> {
                 self.rep.log(format!("  verify(a+b, {} ops) => {}", vm.ops().len(), res_name(&vres)));
                 if let Err(e) = vres {
                     let sig = match e {
-                        RegError::TooManyEntries(_) => self.limit_signature(Some("merge")),
+                        RegError::TooManyEntries(_) => self.limit_signature(vm.ops().len(), Some("merge")),
                         _ => vec![("shape", format!("other_{}", err_name(&e)))],
                     };
                     self.violate("reachable_state_rejected_by_peer", &sig, format!("merge of recorded states #{ia} and #{ib} ({} ops) is rejected by verify(): {}", vm.ops().len(), err_name(&e)));
@@ -1074,7 +1149,7 @@ impl<'a> World<'a> {
             }
             Err(e) => {
                 let sig = match e {
-                    RegError::TooManyEntries(_) => self.limit_signature(cb_b),
+                    RegError::TooManyEntries(_) => self.limit_signature(sb.ops().len(), cb_b),
                     _ => vec![("shape", format!("other_{}", err_name(&e)))],
                 };
                 self.violate("reachable_state_rejected_by_peer", &sig, format!("recorded state #{ib} ({} ops) is rejected by verified_merge: {}", sb.ops().len(), err_name(&e)));
@@ -1157,7 +1232,13 @@ impl<'a> World<'a> {
         // convergence
         let held: Vec<usize> = (0..self.n).filter(|r| self.replicas[*r].signed.is_some()).collect();
         let lens: Vec<usize> = held.iter().map(|r| self.replicas[*r].signed.as_ref().map(|s| s.ops().len()).unwrap_or(0)).collect();
-        let at_limit = lens.iter().any(|l| *l >= LIMIT - 1);
+        // replicas can legitimately (recorded finding) stay apart only when more distinct valid ops are in play
+        // than one register may hold
+        let mut in_play: BTreeSet<usize> = BTreeSet::new();
+        for r in &held {
+            in_play.extend(self.replicas[*r].model.iter().copied());
+        }
+        let at_limit = in_play.len() > LIMIT;
         self.rep.log(format!("final: op counts {lens:?}"));
         let r0 = held[0];
         let mut all_equal = true;
@@ -1192,7 +1273,7 @@ impl<'a> World<'a> {
         // with a rebroadcast every replica has received every op: it must hold exactly the valid ones
         if self.plan.final_sync == FinalSync::Rebroadcast {
             let want: BTreeSet<usize> = (0..self.pool.len()).filter(|k| self.valid(*k)).map(|k| self.pool[k].canon).collect();
-            if want.len() < LIMIT - 1 {
+            if want.len() <= LIMIT {
                 for r in &held {
                     let admitted_invalid = self.replicas[*r].model.iter().any(|k| !self.valid(*k));
                     if self.replicas[*r].model != want && !admitted_invalid {
